@@ -177,6 +177,10 @@ func runMedia() {
 		api.V{S: "s", Dt: api.NewOptDate(time.Date(2020, 2, 29, 0, 0, 0, 0, time.UTC))},
 		api.V{S: "s", K: &api.V{S: "k", K: &api.V{S: "kk", I: api.NewOptInt(1)}}},
 	)
+	// durations of both signs on every unit boundary
+	for _, d := range []time.Duration{0, 1, 999, time.Microsecond, 42 * time.Microsecond, time.Millisecond, 500 * time.Millisecond, time.Second - 1, time.Second, 90 * time.Second, time.Hour + time.Nanosecond, 1<<63 - 1} {
+		vs = append(vs, api.V{S: "s", Du: api.NewOptDuration(d)}, api.V{S: "s", Du: api.NewOptDuration(-d)})
+	}
 	responses := []api.PostJSONRes{
 		&api.VHeaders{XS: "hs", Response: api.V{S: "r"}},
 		&api.VHeaders{XS: "a b;c,d", XN: api.NewOptInt(-5), XL: []string{"x", "y z"}, Response: api.V{S: "r", N: api.NewOptFloat64(0.1), I: api.NewOptInt(7), D: api.NewOptString("dflt")}},
